@@ -1,6 +1,7 @@
 """C08 - CSS parser emits a well-nested, token-conserving grammar stream.
 
 P  spec/css/CssStream.tla       all inputs: nesting while no parse error, conservation of input tokens in source order, final io.EOF
+I  spec/css/CssImpl.tla        css/parse.go's state-function stack over token classes; TLC: I => P for all sequences; differential replay (checks/c08impl.py)
 G  spec/css/CssGrammar.tla      well-formed stylesheets / inline declaration lists with the units, names and Values() the statement prescribes
 T  spec/css/CssStreamTrace.tla  judges traces of harness/suites/cssp
 """
@@ -72,6 +73,9 @@ def run(ck):
     if os.path.exists(gen):
         import c08gen
         extra = c08gen.run(ck, thorough)      # well-formed stylesheets from CssGrammar.tla: replay + inputs for the monitor
+    if os.path.exists(os.path.join(os.path.dirname(__file__), "c08impl.py")):
+        import c08impl
+        c08impl.run(ck, thorough)             # CssImpl.tla: I => P by TLC, differential replay of the model's predictions (model drift only)
     s = ck.drive("cssp", "record", "-cases", cases, "-out", ck.path("record.ndjson"), "-seed", ck.seed, "-harvest", 1500 if thorough else 300,
                  "-muts", 10 if thorough else 6, *extra, timeout=3000)
     if s["executions"] == 0:
